@@ -82,6 +82,10 @@ func c11Run(r *rt.Rec, rng *rand.Rand, n int) {
 	for i := 0; i < n; i++ {
 		if i%20 == 0 {
 			data = gen.DenseDataSet(rng, 1+rng.Intn(2), 12+rng.Intn(16), true)
+			if rng.Intn(3) == 0 {
+				// ids that differ by a trailing blank only are different group keys
+				data = gen.WithEdgeWhitespaceNode(rng, data)
+			}
 		}
 		all := gen.AllTriples(data)
 		graphs := gen.GraphVars[:len(data)]
